@@ -239,3 +239,28 @@ Qed.
 
 Example ex_g_len : length (enc_dmrs true true ex_g) = 54%nat.
 Proof. vm_compute. reflexivity. Qed.
+
+(* ---------------------------------------------------------------- *)
+(* stability: encoding the decoded graph again gives the same tokens *)
+
+Lemma enc_node_proj p l n : enc_node p l (proj_node p l n) = enc_node p l n.
+Proof.
+  unfold enc_node, proj_node. cbn [n_id n_pred n_lnk n_carg n_type n_props].
+  destruct p, l; cbn [enc_glnk]; try reflexivity; destruct (n_lnk n); reflexivity.
+Qed.
+
+Lemma enc_attrs_proj p l g : enc_attrs l (proj_dmrs p l g) = enc_attrs l g.
+Proof.
+  unfold enc_attrs, proj_dmrs, proj_lnk. cbn [g_lnk g_surface g_top g_index].
+  destruct l; [|reflexivity]. cbn [andb].
+  destruct (lnk_truthy (g_lnk g)) eqn:E; [rewrite E; reflexivity | reflexivity].
+Qed.
+
+Theorem enc_dmrs_stable p l g : enc_dmrs p l (proj_dmrs p l g) = enc_dmrs p l g.
+Proof.
+  unfold enc_dmrs. rewrite enc_attrs_proj. cbn [proj_dmrs g_ident g_nodes g_links].
+  rewrite flat_map_concat_map, map_map. rewrite <- flat_map_concat_map.
+  assert (H : flat_map (fun x => enc_node p l (proj_node p l x)) (g_nodes g) = flat_map (enc_node p l) (g_nodes g)).
+  { induction (g_nodes g) as [|n ns IH]; [reflexivity|]. cbn [flat_map]. rewrite enc_node_proj, IH. reflexivity. }
+  rewrite H. reflexivity.
+Qed.
